@@ -10,7 +10,9 @@ from lib.common import Rng, Outcome, zlit, zlist
 
 PROP = "C10"
 GO_PKGS = [("c10drv", True)]
-MODEL_VO = ["theories/C10/Corr.vo", "theories/C10/BridgeC13.vo"]
+# C10/BridgeC13.v (accuracy of the model's exp2 / twap_log from C13's theorems) is deliberately not listed: it depends on another
+# property's files and on Coq-Interval; it is compiled by `./check --setup` (full make) like every file of the development
+MODEL_VO = ["theories/C10/Corr.vo"]
 # only the real-valued theorems (C10_geom_value_partial, C10_geom_twap_true_mean_partial, C10_geom_twap_model_partial) use them: the standard library's reals
 ALLOWED_AXIOMS = ["ClassicalDedekindReals.sig_not_dec", "ClassicalDedekindReals.sig_forall_dec",
                   "FunctionalExtensionality.functional_extensionality_dep", "Classical_Prop.classic"]
@@ -1064,7 +1066,7 @@ SCOPE = ("partial: proved for every history and every interval inside the retent
          "answered. Real-valued (standard-library real axioms): geometric TWAP = 2^(+-m) within 5.1e-8 relative + 3e-18, m = truncated "
          "mean of the accumulated logarithms, and within 5.1e-8 relative + 3e-18 of 2^(+-M), M = the true time-weighted mean of "
          "log2(price) - the latter stated under two accuracy statements about the model's twap_log / exp2 that C10/BridgeC13.v proves "
-         "from C13's LogBase2 / Exp2 theorems (file built every run, kept outside the theorem file's cone because of coqchk time). "
+         "from C13's LogBase2 / Exp2 theorems (file compiled by ./check --setup with the whole development, kept outside the theorem file's cone because of coqchk time and so that C10's check does not depend on C13's files). "
          "Not proved: geometric queries never failing (Exp2's 2^9 exponent bound). The per-pair theorems are lifted to the module-level model that the "
          "correspondence runs (C10/Lift.v: every pair of every reachable module state has a well-formed pair history)")
 EXPLANATION = ("Gallina model of x/twap (C10/Model.v: getSpotPrices, newTwapRecord, updateRecord, recordWithUpdatedAccumulators, "
@@ -1092,5 +1094,5 @@ LEVEL_TEXT = ("Machine-checked theorems (Coq 8.16.1; axiom-free except the two r
               "The model is checked against the real keeper on generated full-app histories on every run.")
 LEVEL_NOTE = ("Trusted: Coq kernel (vm_compute, no native_compute); axioms: none for the integer theorems, the standard library's classical real "
               "numbers (sig_not_dec, sig_forall_dec, functional_extensionality_dep, classic) for the three real-valued theorems (C10_geom_value_partial, C10_geom_twap_true_mean_partial, C10_geom_twap_model_partial); "
-              "their accuracy hypotheses on Exp2 / twapLog are discharged for the model's own functions in C10/BridgeC13.v from C13's theorems (Coq-Interval), built on every run but outside the theorem file's cone; hand-written model C10/Model.v + LogExp.v; Go driver harness/c10drv and "
+              "their accuracy hypotheses on Exp2 / twapLog are discharged for the model's own functions in C10/BridgeC13.v from C13's theorems (Coq-Interval), compiled with the whole development (./check --setup) but outside the theorem file's cone; hand-written model C10/Model.v + LogExp.v; Go driver harness/c10drv and "
               "python glue; pool modules, SDK stores, codecs not modelled. The geometric TWAP's error against the true mean of log2(price) is not proved (LogBase2 bound missing).")
